@@ -16,6 +16,8 @@ def run(ctx, chk):
                        'depth, alias edges included. The run-time statement (overwriting the source does not change the '
                        'URI) follows from (a)-(c); it is not executed.')
     ownrules.run_rules(ctx, chk, eng)
+    from .. import memrules
+    memrules.rule_mask_bit_after_copy(ctx, chk, eng)
     shared.rule_readonly_inputs(ctx, chk, eng, 'C12')
     shared.positive_examples(ctx, chk, ['static_written'])
     chk.analysed['functions'] = len(ctx.irp.funcs)
